@@ -29,8 +29,9 @@ def unhexList : List Char → Option Bytes
     let r ← unhexList rest
     pure (UInt8.ofNat (x * 16 + y) :: r)
 
+/-- `-` is the nil slice, `~` an empty slice that is not nil: both are the empty byte string -/
 def unhex (s : String) : Option Bytes :=
-  if s == "-" then some [] else unhexList s.toList
+  if s == "-" || s == "~" then some [] else unhexList s.toList
 
 def parseInt (s : String) : Option Int := s.toInt?
 
